@@ -32,6 +32,9 @@ type pomOpt struct {
 	Plugin     bool // build/pluginManagement/plugins/plugin/dependencies
 	Parent     int  // 0 none, 1 local parent, 2 local parent + grandparent
 	ParentProp bool // a child (and parent) dependency uses a property defined one level up
+	// Dup: org.dup:dup is declared twice: in <dependencies> with a literal version (the entry updates address)
+	// and, with the property expression of org.pr:pr, in 1 dependencyManagement / 2 the profile / 3 the plugin
+	Dup int
 	// cosmetics
 	Comments   bool
 	CDATA      bool
@@ -56,6 +59,9 @@ func (o pomOpt) valid() bool {
 		return false
 	}
 	if o.NestedAttr && !o.Plugin {
+		return false
+	}
+	if o.Dup > 0 && (o.PropKind == 0 || o.PropInMgmt || (o.Dup == 2 && o.Profile == 0) || (o.Dup == 3 && !o.Plugin)) {
 		return false
 	}
 	return true
@@ -235,6 +241,12 @@ func (o pomOpt) render() (map[string]string, []string) {
 	if o.ParentProp {
 		dl = append(dl, gdep{g: "org.cp", a: "cp", ver: "${cp}"})
 	}
+	if o.Dup > 0 {
+		dl = append(dl, gdep{g: "org.dup", a: "dup", ver: "1.5"})
+	}
+	if o.Dup == 1 {
+		ml = append(ml, gdep{g: "org.dup", a: "dup", ver: tmpl})
+	}
 	if len(dl) > 0 {
 		w.deps(dl, o.Comments)
 	}
@@ -259,6 +271,9 @@ func (o pomOpt) render() (map[string]string, []string) {
 		if o.Profile == 2 {
 			fd = append(fd, gdep{g: "org.pf", a: "shadow", ver: tmpl})
 		}
+		if o.Dup == 2 {
+			fd = append(fd, gdep{g: "org.dup", a: "dup", ver: tmpl})
+		}
 		fp = append(fp, [2]string{"fmp", "1.0"})
 		w.props(fp, o.Comments, false)
 		w.deps(fd, o.Comments)
@@ -281,7 +296,17 @@ func (o pomOpt) render() (map[string]string, []string) {
 			w.line(`<foo xsi:nil="true"/>`)
 			w.close("configuration")
 		}
-		w.deps([]gdep{{g: "org.pl", a: "pl", ver: "1.0"}, {g: "org.pl", a: "plp", ver: "${plv}"}}, o.Comments)
+		pd := []gdep{{g: "org.pl", a: "pl", ver: "1.0"}, {g: "org.pl", a: "plp", ver: "${plv}"}}
+		if o.Dup == 3 {
+			pd = append(pd, gdep{g: "org.dup", a: "dup", ver: tmpl})
+		}
+		w.deps(pd, o.Comments)
+		w.close("plugin")
+		// a plugin declared without <groupId> (Maven defaults it to org.apache.maven.plugins)
+		w.open("plugin")
+		w.leaf("artifactId", "maven-nogroup-plugin")
+		w.leaf("version", "1.0")
+		w.deps([]gdep{{g: "org.pl2", a: "pl2", ver: "1.0"}}, false)
 		w.close("plugin")
 		w.close("plugins")
 		w.close("pluginManagement")
@@ -396,6 +421,22 @@ func genPomDocs(thorough bool) []*pomDoc {
 			}
 		}
 	}
+	// Family D: one groupId:artifactId under two origins (literal in <dependencies>, property expression elsewhere)
+	dupKinds := []int{1, 2}
+	if thorough {
+		dupKinds = []int{1, 2, 3, 4, 5, 6}
+	}
+	for dup := 1; dup <= 3; dup++ {
+		for _, pk := range dupKinds {
+			for _, m := range bools {
+				for _, sh := range bools {
+					for pf := 0; pf <= 2; pf++ {
+						add("two-origins", pomOpt{Deps: true, Mgmt: m, PropKind: pk, Shared: sh, Profile: pf, Plugin: dup == 3, Dup: dup}, subA, rotA)
+					}
+				}
+			}
+		}
+	}
 	// Family B: local parent / grandparent x reduced child (quick) or full child (thorough)
 	pks := []int{0, 1, 2}
 	pfs := []int{0, 1}
@@ -453,7 +494,7 @@ func genPomDocs(thorough bool) []*pomDoc {
 
 func (o pomOpt) weight() int {
 	w := o.Parent * 10
-	for _, b := range []bool{o.Deps, o.Mgmt, o.PropKind > 0, o.PropInMgmt, o.Shared, o.Profile > 0, o.Profile > 1, o.Plugin, o.ParentProp, o.Comments, o.CDATA, o.PI, o.NS, o.NestedAttr, o.VerDecor} {
+	for _, b := range []bool{o.Deps, o.Mgmt, o.PropKind > 0, o.PropInMgmt, o.Shared, o.Profile > 0, o.Profile > 1, o.Plugin, o.ParentProp, o.Dup > 0, o.Comments, o.CDATA, o.PI, o.NS, o.NestedAttr, o.VerDecor} {
 		if b {
 			w++
 		}
@@ -485,7 +526,14 @@ func explorePomDoc(r *ev.Run, d *pomDoc) {
 	}
 	noop := base
 	run(&noop)
-	n := len(in.mIn.deps)
+	// updates address the first declaration of each groupId:artifactId:type:classifier only
+	var addr []*pdep
+	for _, dd := range in.mIn.deps {
+		if !dd.Secondary {
+			addr = append(addr, dd)
+		}
+	}
+	n := len(addr)
 	// a requirement that is not in the file and has to be added to the project's dependencyManagement
 	// (override of a transitive dependency): alone, and together with every single existing requirement
 	addUpd := func(to string) updSpec { return updSpec{Name: "org.new:added", To: to, Add: true} }
@@ -496,11 +544,11 @@ func explorePomDoc(r *ev.Run, d *pomDoc) {
 	}
 	for idx := 0; idx < n; idx++ {
 		cs := base
-		cs.Updates = []updSpec{in.mIn.deps[idx].upd("2.0"), addUpd("10.1")}
+		cs.Updates = []updSpec{addr[idx].upd("2.0"), addUpd("10.1")}
 		run(&cs)
 		if r.Thorough() {
 			cs := base
-			cs.Updates = []updSpec{addUpd("2.0"), in.mIn.deps[idx].upd("2.0")}
+			cs.Updates = []updSpec{addUpd("2.0"), addr[idx].upd("2.0")}
 			run(&cs)
 		}
 	}
@@ -515,7 +563,7 @@ func explorePomDoc(r *ev.Run, d *pomDoc) {
 			}
 			cs := base
 			for _, idx := range sub {
-				cs.Updates = append(cs.Updates, in.mIn.deps[idx].upd(pomTargets[t]))
+				cs.Updates = append(cs.Updates, addr[idx].upd(pomTargets[t]))
 			}
 			run(&cs)
 		}
@@ -523,7 +571,7 @@ func explorePomDoc(r *ev.Run, d *pomDoc) {
 			for t := 0; t < d.Rot; t++ {
 				cs := base
 				for j, idx := range sub {
-					cs.Updates = append(cs.Updates, in.mIn.deps[idx].upd(pomTargets[(t+j)%len(pomTargets)]))
+					cs.Updates = append(cs.Updates, addr[idx].upd(pomTargets[(t+j)%len(pomTargets)]))
 				}
 				run(&cs)
 			}
@@ -544,6 +592,8 @@ type pdep struct {
 	VerNode    *xnode
 	Ver        string // raw template
 	Dependency *xnode
+	UID        string // id() for the first declaration of an id (the one updates address), id()#file:origin for later ones
+	Secondary  bool
 }
 
 func (d *pdep) name() string { return d.G + ":" + d.A }
@@ -618,6 +668,17 @@ func modelFromTrees(trees [][]*xnode, chain []string) (*pomModel, error) {
 		}
 		m.roots = append(m.roots, root)
 		m.extract(fi, root)
+	}
+	// extraction order = order in which the writer looks requirements up (dependencies, dependencyManagement,
+	// profiles, plugins, then the parents): the first declaration of an id is the addressable one
+	first := map[string]bool{}
+	for _, d := range m.deps {
+		if !first[d.id()] {
+			first[d.id()] = true
+			d.UID = d.id()
+			continue
+		}
+		d.UID, d.Secondary = fmt.Sprintf("%s#%d:%s", d.id(), d.File, d.Origin), true
 	}
 	return m, nil
 }
@@ -717,6 +778,31 @@ func refsOf(tmpl string) []string {
 		out = append(out, mm[1])
 	}
 	return out
+}
+
+// match finds the model declaration a requirement reported by Read stands for.
+func (m *pomModel) match(q readReq) *pdep {
+	var cands []*pdep
+	for _, d := range m.deps {
+		if d.id() == q.ID {
+			cands = append(cands, d)
+		}
+	}
+	if len(cands) <= 1 {
+		if len(cands) == 1 {
+			return cands[0]
+		}
+		return nil
+	}
+	// Requirements() holds project-level dependencies / dependencyManagement (of the manifest and its parents);
+	// profile and plugin dependencies are in RequirementsForUpdates with origin "" or "management"
+	for _, d := range cands {
+		direct := d.ProfileID == "" && !strings.HasPrefix(d.Origin, "plugin")
+		if direct == q.Direct && strings.HasSuffix(d.Origin, "management") == (q.Origin == "management") {
+			return d
+		}
+	}
+	return nil
 }
 
 // lookup finds the property definition that is in effect for a dependency: the dependency's own
@@ -833,17 +919,17 @@ func preparePom(cs *caseSpec, dir string) (in *pomInput, discs []disc) {
 	}
 	in.byName = map[string]*pdep{}
 	for _, d := range in.mIn.deps {
-		if in.byName[d.id()] != nil {
-			bad("harness:pom-duplicate-artifact", "%s declared twice", d.id())
+		if in.byName[d.UID] != nil {
+			bad("harness:pom-duplicate-artifact", "%s declared twice under one origin", d.UID)
 			return
 		}
-		in.byName[d.id()] = d
+		in.byName[d.UID] = d
 	}
 	// self-check: the model's interpolation agrees with what Read reports for the input
 	for _, q := range in.reqsIn {
-		d := in.byName[q.ID]
+		d := in.mIn.match(q)
 		if d == nil {
-			bad("harness:pom-model-disagrees-with-read", "Read reports %s which the model does not know", q.ID)
+			bad("harness:pom-model-disagrees-with-read", "Read reports %s (origin %q) which the model does not know", q.ID, q.Origin)
 			return
 		}
 		if !strings.Contains(q.Version, "${") && q.Version != in.mIn.effective(d) {
@@ -895,8 +981,8 @@ func runPomWith(in *pomInput, cs *caseSpec, outDir string) (o outcome) {
 		}
 		pu := result.PackageUpdate{Name: u.Name, VersionFrom: mIn.effective(d), VersionTo: u.To}
 		found := false
-		for _, q := range rawIn {
-			if reqID(q) == u.id() {
+		for qi, q := range rawIn {
+			if reqID(q) == u.id() && mIn.match(reqsIn[qi]) == d {
 				pu.Type = q.Type.Clone()
 				pu.VersionFrom = q.Version
 				found = true
@@ -965,7 +1051,7 @@ func runPomWith(in *pomInput, cs *caseSpec, outDir string) (o outcome) {
 	free := map[*xnode]bool{}
 	targetProps := map[*pprop]bool{}
 	for _, d := range mIn.deps {
-		if _, ok := target[d.id()]; !ok {
+		if _, ok := target[d.UID]; !ok {
 			continue
 		}
 		if d.VerNode != nil {
@@ -1039,13 +1125,13 @@ func runPomWith(in *pomInput, cs *caseSpec, outDir string) (o outcome) {
 	for i, d := range mIn.deps {
 		dOut := mOut.deps[i]
 		effIn, effOut := mIn.effective(d), mOut.effective(dOut)
-		if to, ok := target[d.id()]; ok {
+		if to, ok := target[d.UID]; ok {
 			if effOut == to {
 				continue
 			}
-			flagged[d.id()] = true
+			flagged[d.UID] = true
 			if effOut != effIn {
-				bad("pom:wrong-version-written", "%s: effective version %q, requested %q (was %q)", d.id(), effOut, to, effIn)
+				bad("pom:wrong-version-written", "%s: effective version %q, requested %q (was %q)", d.UID, effOut, to, effIn)
 				continue
 			}
 			key := "pom:silent-non-application"
@@ -1055,16 +1141,16 @@ func runPomWith(in *pomInput, cs *caseSpec, outDir string) (o outcome) {
 			case refsElsewhere(mIn, d):
 				key = "pom:property-defined-in-other-pom"
 			}
-			bad(key, "Write returned nil but %s (%s, origin %q, version %q) still has effective version %q, requested %q", d.id(), chain[d.File], d.Origin, d.Ver, effOut, to)
+			bad(key, "Write returned nil but %s (%s, origin %q, version %q) still has effective version %q, requested %q", d.UID, chain[d.File], d.Origin, d.Ver, effOut, to)
 			continue
 		}
 		if effOut != effIn || d.Ver != dOut.Ver {
-			flagged[d.id()] = true
+			flagged[d.UID] = true
 			key := "pom:collateral-change"
 			if sharesTargetedProperty(mIn, d, target) {
 				key = "pom:shared-property-collateral-change"
 			}
-			bad(key, "%s (%s) was not targeted but its version changed: %q (=%q) -> %q (=%q)", d.id(), chain[d.File], d.Ver, effIn, dOut.Ver, effOut)
+			bad(key, "%s (%s) was not targeted but its version changed: %q (=%q) -> %q (=%q)", d.UID, chain[d.File], d.Ver, effIn, dOut.Ver, effOut)
 		}
 	}
 	// untargeted properties must keep their value (also those no dependency uses)
@@ -1083,22 +1169,19 @@ func runPomWith(in *pomInput, cs *caseSpec, outDir string) (o outcome) {
 		return
 	}
 	norm := func(qs []readReq, m *pomModel, subst bool) []string {
-		names := map[string]*pdep{}
-		for _, d := range m.deps {
-			names[d.id()] = d
-		}
 		var out []string
 		for _, q := range qs {
-			v := q.Version
-			if strings.Contains(v, "${") {
-				if d := names[q.ID]; d != nil {
+			v, uid := q.Version, q.ID
+			if d := m.match(q); d != nil {
+				uid = d.UID
+				if strings.Contains(v, "${") {
 					v = m.effective(d)
 				}
 			}
-			if to, ok := target[q.ID]; ok && subst {
+			if to, ok := target[uid]; ok && subst {
 				v = to
 			}
-			out = append(out, q.ID+" | "+q.Type+" | "+v)
+			out = append(out, uid+" | "+q.Type+" | "+v)
 		}
 		sort.Strings(out)
 		return out
@@ -1191,7 +1274,7 @@ func sharesTargetedProperty(m *pomModel, d *pdep, target map[string]string) bool
 		}
 	}
 	for _, t := range m.deps {
-		if _, ok := target[t.id()]; !ok {
+		if _, ok := target[t.UID]; !ok {
 			continue
 		}
 		for _, rn := range refsOf(t.Ver) {
